@@ -50,6 +50,7 @@ type Scn struct {
 	Budget        int    `json:"budget"` // RedialTimes: 0, n, -1
 	Hook          string `json:"hook"`   // plain (no I/O) | handshake (PreCall answered by a PostAccept plug-in)
 	UserID        bool   `json:"user_id"`
+	IDForm        string `json:"id_form,omitempty"`         // with UserID: "" = a label of the application; remote-addr = the address string of the server the session was dialed to; ip-like = a text that looks like an address
 	Base          string `json:"base"`                      // state at the loss: idle|awaiting|mid-write|big-write
 	NCalls        int    `json:"n_calls"`                   // calls awaiting the parked handler
 	Dir           string `json:"dir,omitempty"`             // mid-write: c2s (request) | s2c (reply)
@@ -95,6 +96,9 @@ func (s Scn) sig() string {
 	}
 	if s.Second {
 		sig += "/second-session"
+	}
+	if s.IDForm != "" {
+		sig += "/id=" + s.IDForm
 	}
 	if s.DialTimeoutMs > 0 {
 		sig += fmt.Sprintf("/dial-timeout=%dms", s.DialTimeoutMs)
@@ -263,6 +267,7 @@ type hookRec struct {
 type dialHook struct {
 	handshake bool
 	userID    string
+	idForm    string
 	dials     int32  // sessions dialed through this hook (isRedial=false)
 	refuse    string // refusal policy for redial invocations
 	refuseK   int
@@ -291,6 +296,13 @@ func (h *dialHook) PostDial(sess erpc.PreSession, isRedial bool) *erpc.Status {
 		n := atomic.AddInt32(&h.dials, 1)
 		if st.OK() && h.userID != "" {
 			if n == 1 {
+				switch h.idForm {
+				case "remote-addr":
+					// an application that names its sessions after the server they talk to
+					h.userID = sess.RemoteAddr().String()
+				case "ip-like":
+					h.userID = "10.1.2.3:4567"
+				}
 				sess.SetID(h.userID)
 			} else {
 				sess.SetID(fmt.Sprintf("%s-%d", h.userID, n)) // a further session of the same peer gets its own id
@@ -512,6 +524,7 @@ func (e *env) setup() error {
 	e.hook = &dialHook{handshake: sc.Hook == "handshake", refuse: sc.HookRefuse, refuseK: sc.HookK}
 	if sc.UserID {
 		e.hook.userID = "c13-user-" + e.id
+		e.hook.idForm = sc.IDForm
 	}
 	cfg := erpc.PeerConfig{RedialTimes: int32(sc.Budget), RedialInterval: time.Millisecond, DialTimeout: 5 * time.Second}
 	if sc.DialTimeoutMs > 0 {
